@@ -28,7 +28,9 @@ RULE = ("one run = 1-2 P2P connections issuing 1-20 requests against devices wit
 REAL = ["xknx.management.Management.process / connect / disconnect", "xknx.management.P2PConnection (request, send_data, _receive, "
         "process)", "xknx.cemi.CEMIHandler", "xknx.core.TaskRegistry.background", "xknx.telegram.tpci/apci codecs"]
 STUB = ["KNX devices (sim.knxbus.SimKNXDevice, independent transport layer)", "KNXIPInterface (StubInterface, confirmations may be "
-        "lost)", "wall clock seam (rate limit)", "loop (SimLoop)"]
+        "lost)", "wall clock seam (rate limit)", "loop (SimLoop)",
+        "receive batching (some runs): a device's T_ACK / answer is handed in within the same receive callback as the L_Data.con of "
+        "the frame it answers"]
 ASSUMPTIONS = ["bound for 'fails within bounded time': 2 x (3 s confirmation + 3 s ACK) + 6 s response + rate-limit pause + 2 s",
                "a T_ACK sent by xknx is attributed to the numbered data frame delivered to it immediately before"]
 OWN = W.ia(1, 1, 250)
@@ -73,7 +75,10 @@ def gen(seed: int, tier: str) -> dict[str, Any]:
                                                    "rate_limit": rng.choice([0, 20]),
                                                    # delay of the L_Data.con of every frame sent: the device's T_ACK / answer
                                                    # may overtake the confirmation of the request (UDP tunnel reordering)
-                                                   "con_d": 0.003 if clean else rng.choice([0.003, 0.003, 0.003, 0.03, 0.3])},
+                                                   "con_d": 0.003 if clean else rng.choice([0.003, 0.003, 0.003, 0.03, 0.3]),
+                                                   # the device's T_ACK / answer reaches xknx in the same receive callback as
+                                                   # the L_Data.con of the frame it answers (coalesced in one TCP read)
+                                                   "glue": None if clean else rng.choice([None, None, None, "t_connect", "all"])},
             "devices": devs, "ops": ops, "inject": inj}
 
 
@@ -107,6 +112,13 @@ def run(plan: dict[str, Any]) -> dict[str, Any]:
         dv._lat = d["lat"]
         devs.append(dv)
     bus.lat_of = lambda dev: getattr(dev, "_lat", 0.02)
+    if cfg.get("glue"):
+        def glue(c, mode=cfg["glue"]):
+            if mode == "all" or (c["tpdu"] and c["tpdu"][0] == 0x80):
+                R.extra_faults["answer_coalesced_with_confirmation"] += 1
+                return True
+            return False
+        bus.glue = glue
     if cfg["con_lost"]:
         crng = random.Random(plan["seed"] ^ 0x43)
         stub.pick = lambda raw, i: {"lat": 0.002, "out": "ok", "con": "never"} if crng.random() < 0.2 else None
